@@ -90,6 +90,10 @@ class Run(object):
         class _Ctx(object):
             def __enter__(self_):
                 self_.prev = getattr(run, '_force_rule', None)
+                # nested use (a reused rule that itself reuses one): the outermost id - the one of the property being
+                # checked - stays in force when the inner id is not a rule of this run
+                if self_.prev is not None and rid not in run.rules:
+                    return
                 run._force_rule = rid
 
             def __exit__(self_, *a):
